@@ -165,6 +165,7 @@ def gen_case(rng):
                     props["graceful_timeout"] = rng.choice([0.1, 0.2, 0.3])
                 if waiting:
                     props["waiting"] = True
+                busy = True                    # kill takes no slot: whatever comes next runs while it is in flight
                 emit(_req("kill", rid, **props))
             elif r < 0.66 and v.live[name]:
                 pid = rng.choice(v.live[name])
@@ -257,6 +258,11 @@ def corpus():
                 "behav": [{"term": ["ignore"], "kill_lat": 0, "spawn_ms": 1}, {"term": ["obey", 30], "kill_lat": 0, "spawn_ms": 1}],
                 "ops": [["start"], ["settle"], _req("kill", "q1", name="a", pid=100, graceful_timeout=0.1, waiting=True), ["settle"],
                         _req("kill", "q2", name="a", pid=101, signum=2), ["settle"], ["check"], ["settle"]]})
+    # a kill request in flight (it holds no slot) overtaken by a stop of the same watcher
+    out.append({"arb": {"warmup_ms": 0}, "watchers": [_w("a", np=1, graceful_ms=100)],
+                "behav": [{"term": ["ignore"], "kill_lat": 0, "spawn_ms": 1}],
+                "ops": [["start"], ["settle"], _req("kill", "q1", name="a", pid=100, graceful_timeout=0.5), stop1, ["settle"],
+                        _req("status", "q3", name="a"), ["settle"]]})
     # die + check: respawn, exit codes in the reap events; a worker with children, killed from outside: orphans survive
     out.append({"arb": {"warmup_ms": 0}, "watchers": [_w("a", np=2, graceful_ms=200), _w("B", np=1, graceful_ms=200, priority=1)],
                 "behav": [{"term": ["obey", 30], "kill_lat": 0, "spawn_ms": 1, "kids": 1, "kid_term": ["ignore"]}],
@@ -370,7 +376,9 @@ def live_checks(case, lv):
                 f.append({"sig": "live-c04-unlisted-live-worker", "point": i,
                           "msg": "watcher %s: %d live workers, %d of them listed" % (name, p["live"][name], alive_listed)})
         last = stim[-1] if stim else None
-        after_check = last is not None and (last[0] in ("check", "start")) and "conflict" not in p["misc"] and not p["stopping"]
+        # a check (or the initial start) that found the daemon at rest: nothing but deaths from outside since the last settle
+        after_check = last is not None and (last[0] in ("check", "start")) and "conflict" not in p["misc"] and not p["stopping"] \
+            and all(op[0] in ("die", "xkill") for op in stim[:-1])
         if after_check:
             for name, w in ws.items():
                 c = _cfg(case, name)
